@@ -576,6 +576,15 @@ func (c *StreamConn) Close() error {
 	return nil
 }
 
+// Sever makes this endpoint fail like a connection whose path died: local reads and writes return an error from
+// now on, while the peer notices nothing (its reads block, its writes are accepted and lost) — a half-open connection.
+func (c *StreamConn) Sever() {
+	if !c.closed {
+		c.closed = true
+		c.ClosedAt = c.h.x.Now()
+	}
+}
+
 // CloseWrite half-closes the connection.
 func (c *StreamConn) CloseWrite() error {
 	if c.closed {
